@@ -79,9 +79,10 @@ static struct in_addr *ares_save_opt_servers(const ares_channel_t *channel,
   return out;
 }
 
-/* Save options from initialized channel */
-int ares_save_options(const ares_channel_t *channel,
-                      struct ares_options *options, int *optmask)
+/* Save options from initialized channel (channel lock held by the caller) */
+static int ares_save_options_nolock(const ares_channel_t *channel,
+                                    struct ares_options  *options,
+                                    int                  *optmask)
 {
   size_t i;
 
@@ -236,6 +237,21 @@ int ares_save_options(const ares_channel_t *channel,
   *optmask = (int)channel->optmask;
 
   return ARES_SUCCESS;
+}
+
+/* Save options from initialized channel.  The configuration can be replaced
+ * at any time by the reload thread (ares_reinit) or by another thread changing
+ * servers or sortlist, all of which hold the channel lock: so must we. */
+int ares_save_options(const ares_channel_t *channel,
+                      struct ares_options *options, int *optmask)
+{
+  int rv;
+
+  ares_channel_lock(channel);
+  rv = ares_save_options_nolock(channel, options, optmask);
+  ares_channel_unlock(channel);
+
+  return rv;
 }
 
 static ares_status_t ares_init_options_servers(ares_channel_t       *channel,
